@@ -751,6 +751,68 @@ fn gen_tls_flow(r: &mut Rng, tier: &Tier, out: &mut Vec<String>) {
     }
 }
 
+// ------------------------------------------------------------------ non-handshake records in front of a ClientHello
+/// a record of the given type whose declared length is `decl`, with `have` body bytes present
+fn plain_record(r: &mut Rng, ty: u8, decl: usize, have: usize) -> Vec<u8> {
+    let mut v = vec![ty, 3, *r.pick(&[1u8, 3]), (decl >> 8) as u8, decl as u8];
+    v.extend(r.bytes(have));
+    v
+}
+/// records of types 0x14 / 0x15 / 0x17 / garbage, declared lengths smaller than, equal to and larger than the hello's
+fn prefix_records(r: &mut Rng, hello_len: usize) -> Vec<Vec<u8>> {
+    let l = hello_len - 5;
+    let mut v = Vec::new();
+    for ty in [0x14u8, 0x15, 0x17, 0x00, 0xff, 0x18] {
+        for decl in [0usize, 1, 2, 20, l - 1, l, l + 1, 2 * l, 16384, 65535] {
+            let have = match r.below(3) { 0 => decl.min(400), 1 => r.below(40) as usize, _ => decl.min(30) };
+            v.push(plain_record(r, ty, decl, have));
+        }
+    }
+    v
+}
+/// complete handshake records that are not a ClientHello (the reader answers Ok(None) and the flow stays)
+fn other_handshakes(r: &mut Rng) -> Vec<Vec<u8>> {
+    let mut sh = vec![0x16, 3, 3, 0, 42, 2, 0, 0, 38, 3, 3]; sh.extend(r.bytes(32)); sh.extend([0, 0x13, 0x01, 0]);     // ServerHello, no extensions
+    vec![vec![0x16, 3, 3, 0, 4, 0, 0, 0, 0],                  // HelloRequest
+         vec![0x16, 3, 3, 0, 4, 14, 0, 0, 0],                 // ServerHelloDone
+         sh]
+}
+fn gen_stale(r: &mut Rng, tier: &Tier, out: &mut Vec<String>) {
+    let mut fid = 500_000u64;
+    for round in 0..tier.scale(6, 40) {
+        let h = client_hello(r);
+        let pres = prefix_records(r, h.len());
+        let others = other_handshakes(r);
+        for (i, p) in pres.iter().enumerate() {
+            // reader level: [non-handshake record] then the valid hello on the SAME reader, whole or in two chunks
+            let mut chunks = vec![p.clone()];
+            if r.chance(1, 4) { chunks.push(r.pick(&pres[..]).clone()); }
+            chunks.extend(split2(r, &h));
+            out.push(r_case(&chunks));
+            if !tier.thorough && round > 1 && i % 3 != 0 { continue; }
+            // flow level: a handshake record that is not a ClientHello opens the flow, then the non-handshake record, then the hello;
+            // and the same hello on another flow
+            fid += 2;
+            let (f, g) = (fid, fid + 1);
+            let mut segs: Vec<(u64, Vec<u8>)> = Vec::new();
+            if r.chance(4, 5) { segs.push((f, r.pick(&others[..]).clone())); }
+            segs.push((f, p.clone()));
+            if r.chance(1, 5) { segs.push((f, r.pick(&pres[..]).clone())); }
+            let cut = segs.len();
+            for c in split2(r, &h) { segs.push((f, c)); }
+            segs.push((g, h.clone()));
+            out.push(t_case(if i % 20 == 0 { "TP" } else { "T" }, &segs));
+            if i % 6 == 0 {
+                let e = if i % 12 == 0 { "l" } else { "pl1" };
+                // junk = everything before the ClientHello on F
+                let junk: Vec<Vec<u8>> = segs[..cut].iter().map(|(fl, p)| tls_seg_frame(*fl, p)).collect();
+                let probe: Vec<Vec<u8>> = segs[cut..].iter().map(|(fl, p)| tls_seg_frame(*fl, p)).collect();
+                if !junk.is_empty() && (e == "l" || i % 60 == 6) { out.push(format!("H {} {} | {}", e, join_hex(&junk), join_hex(&probe))); }
+            }
+        }
+    }
+}
+
 // ------------------------------------------------------------------ HTTP/1 line-structure grammar (direct entry points)
 fn j_case(kind: &str, d: &[u8]) -> String {
     // verdict of the real parser, recorded for the model (which decides N itself and E for an empty first line)
@@ -850,4 +912,5 @@ pub fn gen(r: &mut Rng, tier: &Tier, out: &mut Vec<String>) {
     gen_hist_state(r, tier, out);
     gen_tls_flow(r, tier, out);
     gen_http1_lines(r, tier, out);
+    gen_stale(r, tier, out);
 }
